@@ -123,6 +123,20 @@ pub fn oid_of(t: &Tlv<'_>, what: &str) -> R<Vec<u64>> {
 	decode_oid(t.content)
 }
 
+thread_local! {
+	/// set while a *foreign* certificate is read: its names may hold values outside their string alphabets
+	static FOREIGN_NAMES: std::cell::Cell<bool> = const { std::cell::Cell::new(false) };
+}
+
+/// `parse_certificate` for certificates that rcgen did not write (trust anchors made by other tools):
+/// attribute values are taken as they are, everything else is as strict as usual.
+pub fn parse_certificate_foreign(der: &[u8]) -> R<CertView> {
+	FOREIGN_NAMES.with(|f| f.set(true));
+	let r = parse_certificate(der);
+	FOREIGN_NAMES.with(|f| f.set(false));
+	r
+}
+
 pub fn parse_name(t: &Tlv<'_>) -> R<Name> {
 	t.expect_univ(SEQUENCE, "Name")?;
 	let mut rdns = Vec::new();
@@ -141,7 +155,9 @@ pub fn parse_name(t: &Tlv<'_>) -> R<Name> {
 			if k[1].class != 0 {
 				return Err("attribute value is not a universal type".into());
 			}
-			check_value(&k[1])?;
+			if !FOREIGN_NAMES.with(|f| f.get()) {
+				check_value(&k[1])?;
+			}
 			atvs.push(Atv {
 				oid,
 				oid_raw: k[0].content.to_vec(),
